@@ -14,3 +14,7 @@ package certstore
 //@   assumes result == nil ==> cs.latestCertificate != nil && cs.latestCertificate.GPBFTInstance >= old(cert.GPBFTInstance)
 //@   assumes cs.latestCertificate != nil ==> cs.latestCertificate.GPBFTInstance < 18446744073709551615
 //@   assumes old(cs.latestCertificate) != nil ==> cs.latestCertificate != nil && cs.latestCertificate.GPBFTInstance >= old(cs.latestCertificate.GPBFTInstance)
+
+//@ func (*Store).GetPowerTable
+//@   modifies auto
+//@   assumes result1 == nil ==> isTableFor(result0, instance)
